@@ -404,7 +404,7 @@ func (ex *Exec) branch(cond *Term) bool {
 		t0 := time.Now()
 		q0 := ex.sol.Stats.Queries
 		defer func() {
-			fmt.Fprintf(os.Stderr, "[trace] decision d=%d at %s queries=%d time=%.2fs instrs=%d\n", d, ex.pos(ex.curPos), ex.sol.Stats.Queries-q0, time.Since(t0).Seconds(), ex.instrs)
+			fmt.Fprintf(os.Stderr, "[trace] decision d=%d at %s queries=%d time=%.2fs instrs=%d cond=%s\n", d, ex.pos(ex.curPos), ex.sol.Stats.Queries-q0, time.Since(t0).Seconds(), ex.instrs, smt.Render(cond, 4))
 		}()
 	}
 	known := false
@@ -922,4 +922,61 @@ func (ex *Exec) guardedBranch(cond *Term) bool {
 		return false
 	}
 	panic(mergeFail{"branch in merged arm"})
+}
+
+// probe asks which sides of cond are feasible on the current path without creating
+// a decision. The answer is recorded in the trail (re-executions must repeat it).
+// A side found infeasible makes the other an implied fact.
+func (ex *Exec) probe(cond *Term) (feasT, feasF bool) {
+	if v, ok := ex.knownFact(cond); ok {
+		return v, !v
+	}
+	var outcome uint64
+	if rec, ok := ex.auxChoice(); ok {
+		outcome = rec.V
+	} else {
+		if ex.silent() {
+			outcome = 3
+		} else {
+			ex.flushAsserts()
+			feasT, feasF = true, true
+			known := false
+			if ex.model != nil {
+				ex.model.Miss = false
+				v := smt.Eval(cond, ex.model, map[int]uint64{})
+				if !ex.model.Miss {
+					known = true
+					if v == 1 {
+						r, _ := ex.sol.Check(ex.c.Not(cond), false, nil, nil)
+						feasF = r != "unsat"
+					} else {
+						r, _ := ex.sol.Check(cond, false, nil, nil)
+						feasT = r != "unsat"
+					}
+				}
+			}
+			if !known {
+				r, _ := ex.sol.Check(cond, false, nil, nil)
+				feasT = r != "unsat"
+				if feasT {
+					r2, _ := ex.sol.Check(ex.c.Not(cond), false, nil, nil)
+					feasF = r2 != "unsat"
+				}
+			}
+			if feasT {
+				outcome |= 1
+			}
+			if feasF {
+				outcome |= 2
+			}
+		}
+		ex.auxRecord(AuxRec{Site: ex.instrs, V: outcome})
+	}
+	feasT, feasF = outcome&1 != 0, outcome&2 != 0
+	if feasT && !feasF {
+		ex.learn(cond, true)
+	} else if feasF && !feasT {
+		ex.learn(cond, false)
+	}
+	return
 }
